@@ -77,7 +77,15 @@ def gen_dem_case(rng):
             xl[j], xu[j] = c - w, c + w
         kinds = ["nested"] * v
     X = np.array([gens.in_box(rng, xl, xu, n) for _ in range(1 + 2 * k)])
-    return {"api": "dem", "k": k, "F": rng.choice([0.5, 1.0, 2.0, 0.25]), "name": rng.choice(list(NAMES)), "X": [enc(m) for m in X],
+    extra = {}
+    if rng.random() < 0.3:
+        # integer-coded population (decision vectors stored as int64) on a box with the usual half-unit margins
+        lo = np.array([float(rng.randint(-6, 0)) for _ in range(v)]); hi = lo + np.array([float(rng.randint(1, 9)) for _ in range(v)])
+        X = np.array([[[float(rng.randint(int(lo[j]), int(hi[j]))) for j in range(v)] for _ in range(n)] for _ in range(1 + 2 * k)])
+        xl, xu = lo - 0.5, hi + 0.5; kinds = ["half-integral"] * v; extra["xdtype"] = "int64"
+    if rng.random() < 0.25:
+        extra["prime"] = True
+    return {**extra, "api": "dem", "k": k, "F": rng.choice([0.5, 1.0, 2.0, 0.25]), "name": rng.choice(list(NAMES)), "X": [enc(m) for m in X],
             "xl": enc(xl), "xu": enc(xu), "kinds": kinds, "seed": rng.randrange(2 ** 31)}
 
 
@@ -91,12 +99,17 @@ def run_dem(case):
     P = np.arange(n_par * n).reshape(n_par, n).T
     out = {}
     for tag, prob in (("V0", Problem(n_var=v, n_obj=1, xl=None, xu=None)), ("Z", Problem(n_var=v, n_obj=1, xl=xl.copy(), xu=xu.copy()))):
-        pop = Population.new("X", X.reshape(n_par * n, v).copy())
+        Xp = X.reshape(n_par * n, v).copy()
+        pop = Population.new("X", Xp.astype(case["xdtype"]) if "xdtype" in case else Xp)
         dem = DEM(F=case["F"], gamma=None, de_repair=case["name"], n_diffs=case["k"])
+        if case.get("prime") and tag == "Z":
+            # the operator object has served a problem with a wider box before
+            np.random.seed(case["seed"] + 7)
+            dem.do(Problem(n_var=v, n_obj=1, xl=xl - 1.0 - 0.5 * np.abs(xl), xu=xu + 2.0 + 0.5 * np.abs(xu)), Population.new("X", Xp.copy()), P)
         np.random.seed(case["seed"])
         with Recorder() as rec:
             off = dem.do(prob, pop, P)
-        out[tag] = enc(off.get("X")); out["events_" + tag] = enc_events(rec.events)
+        out[tag] = enc(np.asarray(off.get("X"), dtype=float)); out["events_" + tag] = enc_events(rec.events)
         out["frame_" + tag] = bool(np.array_equal(pop.get("X"), X.reshape(n_par * n, v)))
     return {"Z": out["Z"], "V0": out["V0"], "events": out["events_Z"], "events0": out["events_V0"],
             "args_unchanged": out["frame_Z"] and out["frame_V0"]}
@@ -117,7 +130,7 @@ class C11(Check):
     RULE = ("repair functions of dem.py called on X.copy() with generated mutant matrices (coordinates below / above / on / inside "
             "the bounds; zero-width, 1-ulp, tiny and asymmetric ranges; bases on bounds), draws recorded or scripted "
             "(0, 2^-1074, 2^-53, 0.5, 1-2^-53); one case in four goes through DifferentialMutation.do on a bounded problem (scalar F, no jitter, "
-            "ranges of very different width, some nested in each other) and is judged against the unrepaired mutants of the same call on an "
+            "ranges of very different width, some nested in each other; integer-coded int64 populations on half-integral boxes; operator objects that have served a wider box before) and is judged against the unrepaired mutants of the same call on an "
             "unbounded problem; non-trivial = at least one coordinate violates a bound; distinct by hash of the case")
     ASSUMPTIONS = ["exact-arithmetic theorem (Q); rounding is covered only by the bit-exact runs and the float oracle",
                    "base vectors inside the box (hypothesis of the theorem, guaranteed by C01's induction)"]
